@@ -92,6 +92,9 @@ func (ctx *Context) Parse(value string) error {
 	// 设置错误消息语言
 	SetParseErrorLanguage(ctx.Config.ParseErrorLanguage)
 	_, err := p.parse(nil)
+	if err == nil && p.cur.data.codeOverflow {
+		err = errors.New("E1:指令虚拟机栈溢出，请不要发送过长的指令")
+	}
 	if err != nil {
 		ctx.Error = err
 		return err
